@@ -579,6 +579,24 @@ class SymEval:
 
     def s_For(self, st):
         it = self.expr(st.iter)
+        # pipeline idiom:  for v in LIST: x = f(v, x)   ->   x := fold(LIST, template, x)
+        if (len(st.body) == 1 and not st.orelse and isinstance(st.body[0], ast.Assign)
+                and len(st.body[0].targets) == 1 and isinstance(st.body[0].targets[0], ast.Name)
+                and isinstance(st.target, ast.Name) and isinstance(st.body[0].value, ast.Call)):
+            x = st.body[0].targets[0].id
+            v = st.target.id
+            if x in self.env and x != v:
+                saved = dict(self.env)
+                self.env[v] = S.sym("@elem")
+                self.env[x] = S.sym("@acc")
+                tmpl = self.expr(st.body[0].value)
+                self.env = saved
+                names = set(S.symbols(tmpl))
+                if "@elem" in names and "@acc" in names:
+                    self.snap[id(st.body[0])] = (dict(self.env), list(self.path))
+                    self.env[x] = S.call("fold", it, tmpl, self.env[x])
+                    self.env[v] = S.unknown("after-loop:" + v)
+                    return False
 
         def bind():
             names = list(target_names(st.target))
